@@ -347,5 +347,18 @@ func c12Enumerate(tier string, emit explore.Emit) {
 				Run:  func() explore.Result { return c12RunBad(cfg, b) }})
 		}
 	}
+	// CancelRequest after a completed TLS upgrade (real crypto/tls client over the tapped transport, see C11)
+	for _, cfg := range []string{"certs", "empty", "nil"} {
+		cfg := cfg
+		emit(explore.Case{Family: "malformed-or-cancel", Size: 1,
+			Desc: func() any { return map[string]any{"tls": cfg, "packet": "CancelRequest after the SSL negotiation"} },
+			Run: func() explore.Result {
+				r := c11Run(c11Case{Cfg: cfg, Behave: "cancel-after", Hist: nil})
+				r.Outcome = "cancel"
+				r.Key = "c12-cancel-after-ssl-" + cfg
+				r.Trans = []string{"startup|CancelRequest after SSL negotiation (" + cfg + ")|closed"}
+				return r
+			}})
+	}
 	_ = sort.Strings
 }
